@@ -6,7 +6,7 @@ ID = 'C05'
 LEVEL = 'model_checking'
 RULE = ('every clause body tree with <= N operators from , ; -> \\+ over the 8 leaves '
         '{true fail ! z o(Vi) m(Vi) m(V1) k(Vi)} that contains at least one cut in a transparent '
-        'position and none in an opaque one, placed in the context p(..):-BODY. p(9..). '
+        'position (or a call of k/1, a predicate whose own clause ends in a cut) and none in an opaque one, placed in the context p(..):-BODY. p(9..). '
         'c(..,Z):-m(Z),p(..). plus a dynamic fact p(7..), in 6 context variants: with / without a two-solution goal to '
         'the LEFT of the body x 0, 1 or 2 goals to its RIGHT (thorough, 3 operators: 2 of the 6 variants; and a second '
         'script adding p(6..) without overwrite); compiled, loaded into a fresh engine, query c(A1..Ak,Z) run twice '
@@ -105,11 +105,19 @@ def run_heads(spec):
     return acc
 
 
+def has_leaf(t, kind):
+    if t[0] == 'L':
+        return t[1] == kind
+    return any(has_leaf(c, kind) for c in t[1:])
+
+
 def select(t):
     tr, op = bodies.cut_positions(t)
     if op:
         return 'opaque-cut' if tr or True else None
-    if tr == 0:
+    if tr == 0 and not has_leaf(t, 'k'):
+        # no cut of its own and no call of a predicate that cuts (the leaf k: its cut must leave the
+        # clauses and alternatives of THIS predicate alone)
         return 'other-property'
     return None
 
